@@ -25,6 +25,7 @@ import (
 func RunBetaZero(cfg core.Config, scope core.Scope) *core.Result {
 	res := core.NewResult("BETA")
 	res.Rules = append(res.Rules, "BETA.noread: in the arm selected by beta == 0 the operand being assigned is not read (no element read, compound assignment, value range or call on it)")
+	res.Rules = append(res.Rules, "BETA.quickret: a routine with a beta parameter returns at once for alpha == 0 or for an empty inner dimension k == 0 only when beta == 1 also holds (three-valued evaluation of every bare-return guard with the output dimensions positive and beta different from 0 and 1)")
 	res.Configs = append(res.Configs, cfg.String())
 	pkgs, err := core.Load(cfg, scope.Patterns...)
 	if err != nil {
@@ -222,6 +223,7 @@ func RunBetaZero(cfg core.Config, scope core.Scope) *core.Result {
 						})
 					}
 				}
+				quickReturns(res, info, fd, name, beta)
 				ast.Inspect(fd.Body, func(n ast.Node) bool {
 					switch s := n.(type) {
 					case *ast.IfStmt:
@@ -245,4 +247,218 @@ func RunBetaZero(cfg core.Config, scope core.Scope) *core.Result {
 		}
 	}
 	return res
+}
+
+// quickReturns implements BETA.quickret. With beta != 1 the result operand
+// must be scaled by beta even when alpha == 0 or the inner dimension k is
+// empty (C = beta*C); only an empty output (m == 0 or n == 0) needs no work.
+// Every top-level `if cond { return }` of the routine is evaluated in
+// three-valued logic under two scenarios, each with beta == 0 and beta == 1
+// false and every other `dim == 0` false: (A) k == 0 true, alpha == 0 false;
+// (B) alpha == 0 true, k == 0 false. A guard that is definitely true in a
+// scenario returns without scaling the output.
+func quickReturns(res *core.Result, info *types.Info, fd *ast.FuncDecl, name string, beta types.Object) {
+	params := map[types.Object]string{}
+	for _, fl := range fd.Type.Params.List {
+		for _, n := range fl.Names {
+			if o := info.Defs[n]; o != nil {
+				params[o] = n.Name
+			}
+		}
+	}
+	const (
+		f = iota
+		t
+		u
+	)
+	var eval func(e ast.Expr, scen string) int
+	eval = func(e ast.Expr, scen string) int {
+		switch x := ast.Unparen(e).(type) {
+		case *ast.BinaryExpr:
+			switch x.Op {
+			case token.LAND:
+				a, b := eval(x.X, scen), eval(x.Y, scen)
+				if a == f || b == f {
+					return f
+				}
+				if a == t && b == t {
+					return t
+				}
+				return u
+			case token.LOR:
+				a, b := eval(x.X, scen), eval(x.Y, scen)
+				if a == t || b == t {
+					return t
+				}
+				if a == f && b == f {
+					return f
+				}
+				return u
+			case token.EQL, token.NEQ:
+				id, ok := ast.Unparen(x.X).(*ast.Ident)
+				if !ok {
+					return u
+				}
+				pn, ok := params[core.ObjOf(info, id)]
+				if !ok {
+					return u
+				}
+				tv, ok := info.Types[x.Y]
+				if !ok || tv.Value == nil {
+					return u
+				}
+				v := f
+				switch {
+				case pn == "beta":
+					v = f
+				case pn == scen:
+					if !isZeroConst(tv.Value) {
+						return u
+					}
+					v = t
+				default:
+					if !isZeroConst(tv.Value) {
+						return u
+					}
+					if _, isInt := core.ObjOf(info, id).Type().Underlying().(*types.Basic); !isInt {
+						return u
+					}
+					v = f
+				}
+				if x.Op == token.NEQ {
+					v = 1 - v
+				}
+				return v
+			}
+		case *ast.UnaryExpr:
+			if x.Op == token.NOT {
+				switch eval(x.X, scen) {
+				case t:
+					return f
+				case f:
+					return t
+				}
+			}
+		}
+		return u
+	}
+	// only the prologue is examined: the guards in front of the first
+	// statement that can touch an operand (after `if beta != 1 { scale y }`
+	// a return for alpha == 0 is correct)
+	exitsOnly := func(body []ast.Stmt) bool {
+		if len(body) == 0 {
+			return false
+		}
+		switch l := body[len(body)-1].(type) {
+		case *ast.ReturnStmt:
+			return len(body) == 1
+		case *ast.ExprStmt:
+			if c, ok := l.X.(*ast.CallExpr); ok {
+				if id, ok := c.Fun.(*ast.Ident); ok && id.Name == "panic" {
+					return len(body) == 1
+				}
+			}
+		}
+		return false
+	}
+	for _, st := range fd.Body.List {
+		switch x := st.(type) {
+		case *ast.AssignStmt, *ast.DeclStmt:
+			continue
+		case *ast.SwitchStmt:
+			all := true
+			for _, c := range x.Body.List {
+				if !exitsOnly(c.(*ast.CaseClause).Body) {
+					all = false
+				}
+			}
+			if all {
+				continue
+			}
+		case *ast.IfStmt:
+			if x.Else == nil && exitsOnly(x.Body.List) {
+				break
+			}
+			// if/else chains made of exits only
+			chain, ok := ast.Stmt(x), true
+			for chain != nil && ok {
+				switch c := chain.(type) {
+				case *ast.IfStmt:
+					ok = exitsOnly(c.Body.List)
+					chain = c.Else
+				case *ast.BlockStmt:
+					ok = exitsOnly(c.List)
+					chain = nil
+				default:
+					ok = false
+				}
+			}
+			if ok || scalarOnly(x) {
+				continue
+			}
+			return
+		default:
+			return
+		}
+		is, ok := st.(*ast.IfStmt)
+		if !ok || is.Else != nil || is.Init != nil || len(is.Body.List) != 1 {
+			continue
+		}
+		rs, ok := is.Body.List[0].(*ast.ReturnStmt)
+		if !ok || len(rs.Results) != 0 {
+			continue
+		}
+		for _, scen := range []string{"k", "alpha"} {
+			mentions := false
+			ast.Inspect(is.Cond, func(n ast.Node) bool {
+				if id, ok := n.(*ast.Ident); ok && params[core.ObjOf(info, id)] == scen {
+					mentions = true
+				}
+				return true
+			})
+			if !mentions {
+				continue
+			}
+			res.Obligations++
+			res.Count("quick_return_guards_on_"+scen, 1)
+			if eval(is.Cond, scen) == t {
+				res.Add(core.Finding{Rule: "BETA.quickret", Key: fmt.Sprintf("BETA.quickret|%s|%s", name, scen), Pos: core.Pos(is.Pos()), Func: name,
+					Msg: fmt.Sprintf("%s returns at once under `%s`, which holds for %s == 0 with a non-empty result and beta != 1: the result operand is then left unscaled although the operation defines it as beta times its old content", name, types.ExprString(is.Cond), scen)})
+			}
+		}
+	}
+}
+
+func isZeroConst(v constant.Value) bool {
+	switch v.Kind() {
+	case constant.Int, constant.Float:
+		return constant.Sign(v) == 0
+	case constant.Complex:
+		return constant.Sign(constant.Real(v)) == 0 && constant.Sign(constant.Imag(v)) == 0
+	}
+	return false
+}
+
+// scalarOnly reports whether an if/else chain only assigns to plain
+// identifiers (lenX = n, ...), so that it cannot touch an operand.
+func scalarOnly(is *ast.IfStmt) bool {
+	ok := true
+	ast.Inspect(is, func(n ast.Node) bool {
+		switch x := n.(type) {
+		case *ast.AssignStmt:
+			for _, l := range x.Lhs {
+				if _, isID := l.(*ast.Ident); !isID {
+					ok = false
+				}
+			}
+		case *ast.CallExpr:
+			if id, isID := x.Fun.(*ast.Ident); !isID || (id.Name != "len" && id.Name != "min" && id.Name != "max" && id.Name != "panic") {
+				ok = false
+			}
+		case *ast.ForStmt, *ast.RangeStmt, *ast.IncDecStmt, *ast.ReturnStmt:
+			ok = false
+		}
+		return ok
+	})
+	return ok
 }
